@@ -110,6 +110,8 @@ def riemannian_projection(Xspace,z):
 
     if Xspace.is_ttm != z.is_ttm:
         raise IncompatibleTypes('Both must be of same type.')
+    if Xspace.N != z.N or (Xspace.is_ttm and Xspace.M != z.M):
+        raise ShapeMismatch('Both must have the same shape.')
        
     is_ttm = Xspace.is_ttm
      
